@@ -67,6 +67,9 @@ func (p c13) Gen(c *run.Ctx, idx int) (json.RawMessage, error) {
 	if idx%4 == 2 {
 		// several root steps answering the same key: node(id:) with member fragments owned by different services
 		prof.ForceNodeRoot, prof.PNodeSecond = true, 0.8
+		if idx%8 == 2 {
+			prof.PNodeIDOnly, prof.PNodeSecond = 0.4, 0.2
+		}
 	}
 	if r.Intn(6) == 0 && cu.mono.Mutation != nil {
 		prof.Kind = ast.Mutation
